@@ -9,6 +9,9 @@ TB_COMMON = [
 PROPS = {
     "C17": {
         "level": "proof",
+        "technique": "Lean 4 theorems over the network model (reachability rule, exact successor/predecessor enumeration incl. ties, capacity function) + per-run differential check of every public Network query against Instance.load",
+        "level_text": "Kernel-checked theorems state that the model's can_reach is the documented timing rule and that successors/predecessors list exactly the reachable nodes of the type's index, ties included, for every network; the model's loader is compared field by field and query by query with the real loader on structured random instances on every run, so a change to the loader, the reachability rule or the range bounds shows as a concrete instance.",
+        "level_note": "Trusted: Lean kernel, the hand-written model (tied by the differential run only), harness generators and dump code, serde/rapid_time parsing (exercised, not modelled). Faithfulness of load is checked by equality with the model on sampled instances, not proved about the Rust code.",
         "scopes": {"net": {"quick": 150, "thorough": 3000}},
         "theorems": [
             "RSSched.C17.C17_reach",
